@@ -186,10 +186,41 @@ func init() {
 				}, SeedStep: true,
 				Required: []string{"all_weights_zero_with_module_stake", "real_slash", "supply_query.with_alliance_bonded"},
 			}
-			if tier == "thorough" {
-				return []*engine.Scenario{mk("c11-virtual-stake", []int{2, 1, 3, 4, 1}, 8), zero}
+			// three and four started assets of equal (and of unequal) weight on one validator: the 18-digit shares of a
+			// validator's reward no longer add up to exactly 1, every reward settlement has a sub-unit remainder somewhere
+			tcfg := world.DefaultConfig()
+			tcfg.FullPipeline = true
+			tcfg.Assets = []world.AssetCfg{
+				{Denom: "aaa", Weight: "1", Min: "0", Max: "5", TakeRate: "0"}, {Denom: "bbb", Weight: "1", Min: "0", Max: "5", TakeRate: "0"},
+				{Denom: "ccc", Weight: "1", Min: "0", Max: "5", TakeRate: "0"}, {Denom: "ddd", Weight: "0.7", Min: "0", Max: "5", TakeRate: "0"},
 			}
-			return []*engine.Scenario{mk("c11-virtual-stake", []int{2, 1, 1, 2, 1}, 5), zero}
+			tcfg.DelFunds["ccc"], tcfg.DelFunds["ddd"] = "1000000000000", "1000000000000"
+			three := &engine.Scenario{
+				Property: "C11", Name: "c11-several-assets-per-validator", Cfg: tcfg, Stores: world.AllStores,
+				Seeds: [][]world.Op{
+					{opDel(0, 0, "aaa", "1000000"), opDel(0, 0, "bbb", "1000000"), opDel(1, 0, "ccc", "1000000"), opDel(1, 1, "aaa", "500000"), opBlock(1)},
+					{opDel(0, 0, "aaa", "1000000"), opDel(0, 0, "bbb", "1000000"), opDel(1, 0, "ccc", "1000000"), opDel(1, 0, "ddd", "300000"), opBlock(1)},
+				},
+				ClassNames: classNames, Budgets: tierPick(tier, []int{2, 0, 2, 3, 0}, []int{3, 1, 3, 4, 0}), MaxDepth: tierPick(tier, 6, 8),
+				Ops: func(n *engine.Node) []world.Op {
+					ops := []world.Op{
+						{K: world.KClaim, D: 0, V: 0, Denom: "aaa", Class: ClsUser}, {K: world.KClaim, D: 1, V: 0, Denom: "ccc", Class: ClsUser},
+						{K: world.KDelegate, D: 0, V: 0, Denom: "bbb", Amt: "250000", Class: ClsUser}, {K: world.KUndelegate, D: 0, V: 0, Denom: "aaa", Amt: "400000", Class: ClsUser},
+						{K: world.KSlash, V: 0, F: "0.05", Class: ClsSlash},
+						{K: world.KBlock, Dt: int64(U), Class: ClsBlock},
+					}
+					if atBlockStart(n) {
+						ops = append(ops, world.Op{K: world.KReward, Denom: "stake", Amt: "1000003", Class: ClsEnv}, world.Op{K: world.KReward, Denom: "stake", Amt: "7", Class: ClsEnv})
+					}
+					return ops
+				},
+				Step: c11Step, SeedStep: true,
+				Required: []string{"tx.alliance", "tx.reward_payout", "supply_query.with_alliance_bonded"},
+			}
+			if tier == "thorough" {
+				return []*engine.Scenario{mk("c11-virtual-stake", []int{2, 1, 3, 4, 1}, 8), zero, three}
+			}
+			return []*engine.Scenario{mk("c11-virtual-stake", []int{2, 1, 1, 2, 1}, 5), zero, three}
 		},
 		Assumptions: []string{
 			"same full-pipeline world and alphabet as C10 plus fee inflow and claims; mint inflation is zero so the net supply (bank supply minus the exact token value of the module's delegations) has a closed form",
